@@ -41,10 +41,13 @@ Record ver := mkVer {
   v_close_hist : bool;   (* close_flow refunds the latest expanded amount - claimed (was: original amount - claimed) *)
   v_reset_own : bool;    (* expand_flow reset with empty history starts from the flow's own amount (was: the expansion amount) *)
   v_close_clamp : bool;  (* close_position removes min(weight, address weight) from both weights (was: saturating on each) *)
-  v_expand_pull : bool   (* expand_flow adds its cw20 TransferFrom message to the response (was: built, then dropped) *)
+  v_expand_pull : bool;  (* expand_flow adds its cw20 TransferFrom message to the response (was: built, then dropped) *)
+  v_close_snap : bool;   (* close_position takes the epoch's global weight snapshot first when it is still missing *)
+  v_claim_cur : bool     (* claim records the address's current weight for the next epoch (was: the last weight its loop saw) *)
 }.
-Definition v_orig : ver := mkVer false false false false false.
-Definition v_fixed : ver := mkVer true true true true true.
+Definition v_orig : ver := mkVer false false false false false false false.
+Definition v_c12 : ver := mkVer true true true false true false false.     (* the four flow repairs only *)
+Definition v_fixed : ver := mkVer true true true true true true true.
 
 (* ---- weight.rs ------------------------------------------------------------------------------------- *)
 (* Decimal256 arithmetic at scale 10^18; every intermediate stays far below 2^256 for u64 durations and
@@ -121,13 +124,14 @@ Definition key_lt (s1 i1 s2 i2 : Z) : bool := (s1 <? s2) || ((s1 =? s2) && (i1 <
 Definition key_eq (s1 i1 s2 i2 : Z) : bool := (s1 =? s2) && (i1 =? i2).
 Fixpoint flows_remove (s i : Z) (l : list flow) : list flow :=
   match l with [] => [] | f :: r => if key_eq (f_start f) (f_id f) s i then r else f :: flows_remove s i r end.
-Fixpoint flows_save (f : flow) (l : list flow) : list flow :=
+(* FLOWS.save: overwrite the key; the list stays in key order *)
+Fixpoint flows_insert (f : flow) (l : list flow) : list flow :=
   match l with
   | [] => [f]
-  | g :: r => if key_lt (f_start f) (f_id f) (f_start g) (f_id g) then f :: g :: r
-              else if key_eq (f_start f) (f_id f) (f_start g) (f_id g) then f :: r
-              else g :: flows_save f r
+  | g :: r => if key_lt (f_start f) (f_id f) (f_start g) (f_id g) then f :: g :: r else g :: flows_insert f r
   end.
+Definition flows_save (f : flow) (l : list flow) : list flow :=
+  flows_insert f (flows_remove (f_start f) (f_id f) l).
 
 Inductive ident := ById (i : Z) | ByLabel (l : Z).
 Definition ident_matches (x : ident) (f : flow) : bool :=
@@ -294,11 +298,13 @@ Definition open_flow (v : ver) (c : cfg) (st : state) (sender : Z) (fs al : list
        | Some paid =>
            do amount1 <-
              (if is_native asset && (asset =? fa) then
-                do _ <- ensure (negb (v_open_eq v) || (paid =? amount)) E_OTHER;   (* repaired: FlowAssetNotSent unless the declared amount was sent *)
                 let a1 := ssub amount fee in
                 if a1 <? MIN_FLOW then Err E_OTHER else Ok a1
               else Ok amount);
            if paid <? fee then Err E_OTHER else
+           (* repaired: FlowAssetNotSent unless the funds sent equal flow amount + fee *)
+           do _ <- (if v_open_eq v && is_native asset && (asset =? fa)
+                    then (do s <- cadd P128 amount1 fee; ensure (paid =? s) E_OTHER) else Ok tt);
            let refund := if (fee <? paid) && is_native asset && negb (asset =? fa)
                          then [MSend sender fa (paid - fee)] else [] in
            Ok (amount1, refund ++ [MSend (c_collector c) fa fee])
@@ -416,7 +422,8 @@ Definition reward_of (emission uw g : Z) : outcome Z :=
   do _ <- must (r <? P256);
   if r <? P128 then Ok r else Err E_OTHER.
 
-Record loopst := mkLoop { l_flow : flow; l_lu : Z; l_lw : Z; l_rewards : list Z }.
+(* l_log is ghost instrumentation: (epoch, reward, emission of that epoch) for every non-zero reward paid *)
+Record loopst := mkLoop { l_flow : flow; l_lu : Z; l_lw : Z; l_rewards : list Z; l_log : list (Z * Z * Z) }.
 
 (* claim.rs inner loop over epoch ids [e ..= cur]; `count` = epoch_count before this iteration *)
 Fixpoint claim_epochs (fuel : nat) (e cur count : Z) (exp_amt exp_end : Z) (awh_u snap : list (Z * Z)) (s : loopst)
@@ -436,17 +443,17 @@ Fixpoint claim_epochs (fuel : nat) (e cur count : Z) (exp_amt exp_end : Z) (awh_
                 | None => do v <- cadd P128 emission emitted; Ok (set_emitted f (f_emitted f ++ [(e, v)]))
                 | Some _ => Ok f end);
       match weight_lookup awh_u e (l_lu s) (l_lw s) with
-      | None => claim_epochs fuel' (e + 1) cur count' exp_amt exp_end awh_u snap (mkLoop f1 (l_lu s) (l_lw s) (l_rewards s))
+      | None => claim_epochs fuel' (e + 1) cur count' exp_amt exp_end awh_u snap (mkLoop f1 (l_lu s) (l_lw s) (l_rewards s) (l_log s))
       | Some (uw, lu1, lw1) =>
           let g := aget0 e snap in
-          if g =? 0 then claim_epochs fuel' (e + 1) cur count' exp_amt exp_end awh_u snap (mkLoop f1 lu1 lw1 (l_rewards s))
+          if g =? 0 then claim_epochs fuel' (e + 1) cur count' exp_amt exp_end awh_u snap (mkLoop f1 lu1 lw1 (l_rewards s) (l_log s))
           else
             do r <- reward_of emission uw g;
             do tot <- cadd P128 r (f_claimed f1);
             do _ <- ensure ((r <=? emission) && (tot <=? exp_amt)) E_OTHER;
-            if r =? 0 then claim_epochs fuel' (e + 1) cur count' exp_amt exp_end awh_u snap (mkLoop f1 lu1 lw1 (l_rewards s))
+            if r =? 0 then claim_epochs fuel' (e + 1) cur count' exp_amt exp_end awh_u snap (mkLoop f1 lu1 lw1 (l_rewards s) (l_log s))
             else claim_epochs fuel' (e + 1) cur count' exp_amt exp_end awh_u snap
-                   (mkLoop (set_claimed f1 tot) lu1 lw1 (l_rewards s ++ [r]))
+                   (mkLoop (set_claimed f1 tot) lu1 lw1 (l_rewards s ++ [r]) (l_log s ++ [(e, r, emission)]))
       end
   end.
 
@@ -477,13 +484,13 @@ Fixpoint claim_flows (fl : list flow) (cur : Z) (last : option Z) (awh_u snap : 
       else
         let '(lu0, lw0) := earliest awh_u in
         do first <- first_claimable last f lu0;
-        do s <- claim_epochs (loop_fuel first cur) first cur 0 exp_amt exp_end awh_u snap (mkLoop f lu0 lw0 []);
+        do s <- claim_epochs (loop_fuel first cur) first cur 0 exp_amt exp_end awh_u snap (mkLoop f lu0 lw0 [] []);
         do x <- claim_flows r cur last awh_u snap user (l_lw s);
         let '(r', ms, lw') := x in
         Ok (l_flow s :: r', map (fun a => MSend user (f_asset f) a) (l_rewards s) ++ ms, lw')
   end.
 
-Definition claim (c : cfg) (st : state) (sender : Z) : outcome (state * list msg) :=
+Definition claim (v : ver) (c : cfg) (st : state) (sender : Z) : outcome (state * list msg) :=
   let cur := s_epoch st in
   match aget cur (s_snap st) with
   | None => Err E_OTHER
@@ -494,7 +501,8 @@ Definition claim (c : cfg) (st : state) (sender : Z) : outcome (state * list msg
       let '(fl, ms, lw) := x in
       do nxt <- padd P64 cur 1;
       Ok (mkState (s_epoch st) (s_bal st) fl (s_counter st) (s_open st) (s_closed st) (s_gw st) (s_aw st) (s_snap st)
-            (fun a => if a =? sender then [(nxt, lw)] else s_awh st a) (aset sender cur (s_last st)), ms)
+            (fun a => if a =? sender then [(nxt, if v_claim_cur v then aget0 sender (s_aw st) else lw)] else s_awh st a)
+            (aset sender cur (s_last st)), ms)
   end.
 
 (* get_rewards.rs: same loop without the cap, the emitted map is a local copy, the claimed amount is not advanced,
@@ -566,8 +574,14 @@ Definition close_position (v : ver) (c : cfg) (st : state) (sender : Z) (d now :
       let uw := ssub uw0 w' in
       do _ <- must (s_epoch st + 1 <? P64);
       let h := sset (s_epoch st + 1) uw (s_awh st sender) in
-      Ok (with_positions st op (s_closed st ++ [(sender, (amount, ts))]) gw (aset sender uw (s_aw st))
-            (fun a => if a =? sender then h else s_awh st a), [])
+      let st1 := with_positions st op (s_closed st ++ [(sender, (amount, ts))]) gw (aset sender uw (s_aw st))
+            (fun a => if a =? sender then h else s_awh st a) in
+      (* repaired: the epoch's snapshot is taken (from the weight before the reduction) if it is still missing *)
+      let snap := match aget (s_epoch st) (s_snap st) with
+                  | None => if v_close_snap v then aset (s_epoch st) (s_gw st) (s_snap st) else s_snap st
+                  | Some _ => s_snap st end in
+      Ok (mkState (s_epoch st1) (s_bal st1) (s_flows st1) (s_counter st1) (s_open st1) (s_closed st1) (s_gw st1) (s_aw st1)
+            snap (s_awh st1) (s_last st1), [])
   end.
 
 (* ---- operations and histories ---------------------------------------------------------------------- *)
@@ -604,7 +618,7 @@ Definition step (v : ver) (c : cfg) (st : state) (o : op) : outcome state :=
   | OpenFlow sender fs al so eo asset amount label => call st sender fs al (open_flow v c st sender fs al so eo asset amount label)
   | ExpandFlow sender fs al x eo asset amount => call st sender fs al (expand_flow v c st sender fs al x eo asset amount)
   | CloseFlow sender x => call st sender [] [] (close_flow v c st sender x)
-  | Claim sender => call st sender [] [] (claim c st sender)
+  | Claim sender => call st sender [] [] (claim v c st sender)
   | OpenPosition sender fs al amount d recv => call st sender fs al (open_position c st sender fs al amount d recv)
   | ExpandPosition sender fs al amount d recv => call st sender fs al (expand_position c st sender fs al amount d recv)
   | ClosePosition sender d now => call st sender [] [] (close_position v c st sender d now)
